@@ -174,11 +174,14 @@ struct Program {
 
 const WORDS: &[&str] = &[
     "request_count", "bytes_in", "latency", "status", "operation", "retry_attempts", "cache_hit", "payload_size", "region", "shard_id", "total", "p99_wait", "queue_depth", "error", "http2_frames", "a", "db_time",
+    "io_2xx_count", "x__y", "e2e_p99_9",
 ];
-const VARIANT_WORDS: &[&str] = &["ReadData", "WriteData", "Delete", "ListObjects", "Get", "HeadBucket", "Scan2"];
-const PREFIX_WORDS: &[&str] = &["api_", "sub-", "Outer_", "db_", "v2_", "client-side_", "Foo-"];
+// (acronym runs, digits and underscores: the inflector is not the identity on these, in any style)
+const VARIANT_WORDS: &[&str] = &["ReadData", "WriteData", "Delete", "ListObjects", "Get", "HeadBucket", "Scan2", "HTTPError", "DBTimeout", "Read_only", "IOError2", "S3Upload", "XMLHttpRequest", "ALLCAPS", "lower_case"];
+// (several of these texts are also in EXACT_PREFIXES: the same text in both prefix roles within one crate)
+const PREFIX_WORDS: &[&str] = &["api_", "sub-", "Outer_", "db_", "v2_", "client-side_", "Foo-", "X__"];
 const FLATTEN_PREFIXES: &[&str] = &["alt", "waterfowl_", "inner-", "Upstream_", "x", "long_prefix_component_number_one_", "another-rather-long-prefix-component-"];
-const EXACT_PREFIXES: &[&str] = &["API:", "Api.", "X__", "svc/", "A very long exact prefix with spaces and UPPER case, 60+ bytes.. ", "é-"];
+const EXACT_PREFIXES: &[&str] = &["API:", "Api.", "X__", "svc/", "A very long exact prefix with spaces and UPPER case, 60+ bytes.. ", "é-", "api_", "db_", "Outer_"];
 const NAME_OVERRIDES: &[&str] = &["NDucks", "custom_name", "Custom-Name", "lowerCamel", "X"];
 const UNITS: &[(&str, &str)] = &[("Count", "Count"), ("Percent", "Percent"), ("Megabyte", "Megabytes"), ("Millisecond", "Milliseconds"), ("BitPerSecond", "Bits/Second")];
 
